@@ -35,7 +35,7 @@ CONSTANTS Steps,      \* set of steps (seconds), each <= 4h (a larger step makes
           Quantum,    \* "half" | "step" | "slice": lattice of starts and ends (fractions of a step)
           OrderMode,  \* "all": every arrival permutation; "fwdrev": in order and reversed only
           PresMode,   \* "subset": presence chosen in one step; "runs": run by run (simulation)
-          MaxRun,     \* "runs": longest run (cells)
+          RunLens,    \* "runs": set of run lengths (cells) to choose from
           Deltas,     \* follow-up queries through the cache: set of offsets in half-steps ({} = none)
           Mirror      \* BOOLEAN: Overlaps has cases 10 and 11 ("first range inside the second, start / end
                       \* aligned", added by pint commit c96496e after this model found them missing). The driver
@@ -308,11 +308,11 @@ ChoosePresence ==
   /\ StartWait
   /\ UNCHANGED <<step, start, end, unit, slices, cur, collected, ranges, arrival, q, delta, cache, miss, hist>>
 
-\* ... or run by run (simulation): alternating absent / present runs of 1..MaxRun cells
+\* ... or run by run (simulation): alternating absent / present runs, lengths from RunLens
 AddRun ==
   /\ pc = "pres" /\ PresMode = "runs"
   /\ LET f == cur[1]  c == cur[2] IN
-     \E v \in (IF c = FirstCell THEN BOOLEAN ELSE {cur[3]}), len \in 1..MaxRun :
+     \E v \in (IF c = FirstCell THEN BOOLEAN ELSE {cur[3]}), len \in RunLens :
        LET upto == Min2(c + len - 1, LastCell) IN
        /\ pres' = IF v THEN [pres EXCEPT ![f] = @ \cup (c..upto)] ELSE pres
        /\ IF upto < LastCell THEN cur' = <<f, upto + 1, ~v>> /\ UNCHANGED <<pc, pending>>
